@@ -534,6 +534,23 @@ theorem C17_wrap_critical_section (k : Nat) (tmp0 : List UInt8) (todos : List (L
     rw [hth] at hth'; cases hth'
     exact ⟨m, rest, htodo, hP⟩
 
+/-- **C17 wrap — the ring sees one producer at a time.**  Corollary of `C17_wrap_critical_section`, in the form
+Core D / Core F use it: in every reachable state, two goroutines that are inside `writeMessage` — between `wmu.Lock` and the
+deferred `Unlock`, i.e. anywhere in `WriteWait` … `WriteCommit` / `Write` on the connection's outgoing ring — are the same
+goroutine.  So the producer calls that ALL goroutines make on one outgoing ring do not overlap: they form one sequential
+program, which is what the ring program of `Model/Ring.lean` (one producer thread `p`) and the ring contract
+`C16_ring_contract_is_C15` assume of their producer. -/
+theorem C17_wrap_one_producer (k : Nat) (tmp0 : List UInt8) (todos : List (List (List UInt8)))
+    (sched : List Act) :
+    let size := 2 ^ k
+    let s := run code size (init size tmp0 todos) sched
+    ∀ (t u : Nat) (th thu : Th), s.ths[t]? = some th → s.ths[u]? = some thu → th.pc ≠ .idle → thu.pc ≠ .idle → t = u := by
+  intro size s t u th thu hth hthu hpc hpcu
+  obtain ⟨_, hothers, _⟩ := C17_wrap_critical_section k tmp0 todos sched t th hth hpc
+  by_cases e : u = t
+  · exact e.symm
+  · exact absurd (hothers u thu hthu e) hpcu
+
 /-- **C17 wrap (c) — the scratch buffer never reaches the stream.**  (b) holds for every initial
 scratch buffer; more: two runs on the same schedule that start with different scratch buffers
 agree, after every step, on the observed stream, the ring, both cursors, `wmu`, the threads and
